@@ -23,12 +23,20 @@ pub struct Case {
     pub requests: Vec<LdRequest>,
     /// bytes poked before the first request (VERIFY images)
     pub pokes: Vec<(u16, Vec<u8>)>,
+    /// stray bytes after the last complete block (fewer than a block header needs)
+    pub tail: Vec<u8>,
+}
+
+fn image_of(c: &Case) -> Vec<u8> {
+    let mut v = tap_image(&c.blocks);
+    v.extend_from_slice(&c.tail);
+    v
 }
 
 fn case_json(c: &Case, kind: &str) -> serde_json::Value {
     json!({"kind":kind,"m128":c.m128,"blocks":c.blocks.iter().map(|b| crate::vcore::hex(b)).collect::<Vec<_>>(),
         "requests":c.requests.iter().map(|r| json!([r.a, r.load, r.ix, r.de])).collect::<Vec<_>>(),
-        "pokes":c.pokes.iter().map(|(a, b)| json!([a, crate::vcore::hex(b)])).collect::<Vec<_>>()})
+        "pokes":c.pokes.iter().map(|(a, b)| json!([a, crate::vcore::hex(b)])).collect::<Vec<_>>(), "tail": crate::vcore::hex(&c.tail)})
 }
 
 fn case_from_json(v: &serde_json::Value) -> Case {
@@ -44,6 +52,7 @@ fn case_from_json(v: &serde_json::Value) -> Case {
             })
             .unwrap_or_default(),
         pokes: v["pokes"].as_array().map(|a| a.iter().map(|p| (p[0].as_u64().unwrap() as u16, crate::vcore::unhex(p[1].as_str().unwrap_or("")))).collect()).unwrap_or_default(),
+        tail: crate::vcore::unhex(v["tail"].as_str().unwrap_or("")),
     }
 }
 
@@ -110,7 +119,7 @@ pub fn run_fast_case(ctx: &Ctx, c: &Case, verbose: bool) -> u64 {
     for (a, b) in c.pokes.iter() {
         rig::poke(&mut e, *a, b);
     }
-    let image = tap_image(&c.blocks);
+    let image = image_of(c);
     if e.load_tape(Tape::Tap(VAsset::new(image))).is_err() {
         ctx.violation("C10:load_tape-error", "load_tape failed for a well-formed TAP", case_json(c, "fast"));
         return 0;
@@ -401,6 +410,7 @@ fn build_cases(quick: bool) -> Vec<Case> {
                                     blocks: vec![b.clone(), sentinel.clone()],
                                     requests: vec![LdRequest { a, load: true, ix, de }, LdRequest { a: 0xFF, load: true, ix: 0xA000, de: 2 }],
                                     pokes: vec![],
+                                    tail: vec![],
                                 });
                                 // VERIFY against equal memory and memory differing at first / middle / last byte
                                 let data: Vec<u8> = if b.len() > 1 { b[1..].to_vec() } else { vec![] };
@@ -421,6 +431,7 @@ fn build_cases(quick: bool) -> Vec<Case> {
                                         blocks: vec![b.clone(), sentinel.clone()],
                                         requests: vec![LdRequest { a, load: false, ix, de }, LdRequest { a: 0xFF, load: true, ix: 0xA000, de: 2 }],
                                         pokes: if ix >= 0x4000 { vec![(ix, img)] } else { vec![] },
+                                        tail: vec![],
                                     });
                                 }
                             }
@@ -443,11 +454,11 @@ fn build_cases(quick: bool) -> Vec<Case> {
             ];
             all[..n].to_vec()
         };
-        v.push(Case { m128, blocks: vec![b1.clone(), b2.clone(), b3.clone()], requests: reqs(4), pokes: vec![] });
-        v.push(Case { m128, blocks: vec![b1.clone(), b2.clone()], requests: reqs(4), pokes: vec![] });
-        v.push(Case { m128, blocks: vec![b1.clone()], requests: reqs(2), pokes: vec![] });
-        v.push(Case { m128, blocks: vec![], requests: reqs(1), pokes: vec![] });
-        v.push(Case { m128, blocks: vec![], requests: vec![LdRequest { a: 0xFF, load: false, ix: 0x9000, de: 5 }], pokes: vec![] });
+        v.push(Case { m128, blocks: vec![b1.clone(), b2.clone(), b3.clone()], requests: reqs(4), pokes: vec![], tail: vec![] });
+        v.push(Case { m128, blocks: vec![b1.clone(), b2.clone()], requests: reqs(4), pokes: vec![], tail: vec![] });
+        v.push(Case { m128, blocks: vec![b1.clone()], requests: reqs(2), pokes: vec![], tail: vec![] });
+        v.push(Case { m128, blocks: vec![], requests: reqs(1), pokes: vec![], tail: vec![] });
+        v.push(Case { m128, blocks: vec![], requests: vec![LdRequest { a: 0xFF, load: false, ix: 0x9000, de: 5 }], pokes: vec![], tail: vec![] });
         // short blocks after a block longer than the 128-byte read buffer
         let long = block_of(302, 0xFF, true);
         let short1 = block_of(12, 0xFF, true);
@@ -463,9 +474,16 @@ fn build_cases(quick: bool) -> Vec<Case> {
                 LdRequest { a: 0xFF, load: true, ix: 0x9500, de: 3 },
             ],
             pokes: vec![],
+            tail: vec![],
         });
+        // a stray byte after the last block is not a block: the tape is over after b1 (the second
+        // request waits like on a silent tape), whatever the byte is
+        for stray in [vec![0x00u8], vec![0x13], vec![0xFF]] {
+            v.push(Case { m128, blocks: vec![b1.clone()], requests: reqs(2), pokes: vec![], tail: stray.clone() });
+            v.push(Case { m128, blocks: vec![], requests: reqs(1), pokes: vec![], tail: stray });
+        }
         // wrong flag first, then retry: the mismatching block is consumed
-        v.push(Case { m128, blocks: vec![b1.clone(), b2.clone()], requests: vec![LdRequest { a: 0xFF, load: true, ix: 0x9000, de: 17 }, LdRequest { a: 0xFF, load: true, ix: 0x9100, de: 128 }, LdRequest { a: 0xFF, load: true, ix: 0x9100, de: 128 }], pokes: vec![] });
+        v.push(Case { m128, blocks: vec![b1.clone(), b2.clone()], requests: vec![LdRequest { a: 0xFF, load: true, ix: 0x9000, de: 17 }, LdRequest { a: 0xFF, load: true, ix: 0x9100, de: 128 }, LdRequest { a: 0xFF, load: true, ix: 0x9100, de: 128 }], pokes: vec![], tail: vec![] });
     }
     v
 }
@@ -479,7 +497,7 @@ pub fn realtime_case(ctx: &Ctx, c: &Case, verbose: bool) -> u64 {
     for (a, b) in c.pokes.iter() {
         rig::poke(&mut e, *a, b);
     }
-    if e.load_tape(Tape::Tap(VAsset::new(tap_image(&c.blocks)))).is_err() {
+    if e.load_tape(Tape::Tap(VAsset::new(image_of(c)))).is_err() {
         return 0;
     }
     e.play_tape();
@@ -543,6 +561,7 @@ pub fn realtime_vs_fast(ctx: &Ctx) {
                         blocks: vec![b.clone(), b2.clone()],
                         requests: vec![LdRequest { a, load, ix: 0x9000, de }, LdRequest { a: 0xFF, load: true, ix: 0x6000, de: 2 }],
                         pokes: if load { vec![] } else { vec![(0x9000, data)] },
+                        tail: vec![],
                     });
                 }
             }
@@ -557,6 +576,7 @@ pub fn realtime_vs_fast(ctx: &Ctx) {
             blocks: vec![long, short],
             requests: vec![LdRequest { a: 0xFF, load: true, ix: 0x9000, de: 138 }, LdRequest { a: 0xFF, load: true, ix: 0x9200, de: 4 }],
             pokes: vec![],
+            tail: vec![],
         });
     }
     let n = cases.len();
